@@ -573,6 +573,104 @@ func floatLayers(tier string) []Layer {
 			},
 		})
 	}
+	// H7: Float (to *big.Float): documented naive, within a few dozen units; specials and signs exact
+	{
+		var xs []*Opnd
+		for _, cf := range []int64{1, 3, 7, 15, 99, 12345, 17976931348623157, 4940656458412465, 999999999999999999} {
+			xs = append(xs, mkInt64(cf, 0, 34, 0), mkInt64(-cf, 0, 20, 3))
+		}
+		for _, s := range RunLengthStrings(12) {
+			if len(s) > 9 {
+				xs = append(xs, mkCoef(false, mustInt(s), 0, uint32(len(s))+3, 0))
+			}
+		}
+		for _, v := range WVecs(2, S7) {
+			xs = append(xs, mkWords(false, v, 0, 0, 0))
+		}
+		fexps := []int64{-340, -308, -60, -20, -5, -1, 0, 1, 2, 5, 19, 20, 38, 60, 308, 340, 2000, -2000}
+		layers = append(layers, Layer{
+			Name:   "H7-Float",
+			Units:  len(xs),
+			Bounds: fmt.Sprintf("x.Float(z) for %d values × %d decimal exponents (−2000..2000) × target precision {0 (rule: max(⌈prec·log2 10⌉,64)), 24, 53, 64, 200} and z == nil; ±0, ±Inf: sign and specials exact, value within 64 units in the last binary place", len(xs), len(fexps)),
+			Run: func(c *Ctx, u int) {
+				for _, e := range fexps {
+					for _, neg := range []bool{false, true} {
+						xo := *xs[u]
+						xo.Exp = e
+						xo.V.E10 = e - int64(len(xo.Words))*DW
+						xo.Neg, xo.V.Neg = xo.Neg != neg, xo.Neg != neg
+						x := xo.Build()
+						r := ratOfVal(xo.V)
+						for _, p := range []uint{0, 24, 53, 64, 200} {
+							if c.Skip() {
+								continue
+							}
+							var got *big.Float
+							z := new(big.Float).SetPrec(p).SetInt64(-77) // receiver holding garbage
+							if p == 0 {
+								z = nil
+							}
+							pv, _ := protect(func() { got = x.Float(z) })
+							key := fmt.Sprintf("Float x=%s@exp%d prec=%d", &xo, e, p)
+							if pv != nil || got == nil {
+								c.Fail(key, fmt.Sprintf("panic=%v result=%v", pv, got))
+								continue
+							}
+							wp := p
+							if p == 0 {
+								wp = uint(math.Ceil(float64(xo.Prec) * math.Log2(10)))
+								if wp < 64 {
+									wp = 64
+								}
+							}
+							if got.Prec() != wp {
+								c.Fail(key, fmt.Sprintf("result precision %d, documented %d", got.Prec(), wp))
+								continue
+							}
+							if got.IsInf() || got.Sign() == 0 || got.Signbit() != xo.Neg {
+								c.Fail(key, fmt.Sprintf("got %s for the finite non-zero value %s", got.Text('g', 20), xo.V.Norm()))
+								continue
+							}
+							c.NonTrivial()
+							gr, _ := got.Rat(nil)
+							d := new(big.Rat).Sub(gr, r)
+							d.Abs(d)
+							// one unit in the last place of got: 2^(exp − prec)
+							ulp := new(big.Rat).SetInt64(1)
+							k := got.MantExp(nil) - int(wp)
+							if k >= 0 {
+								ulp.SetInt(new(big.Int).Lsh(big1, uint(k)))
+							} else {
+								ulp.SetFrac(big1, new(big.Int).Lsh(big1, uint(-k)))
+							}
+							if d.Cmp(new(big.Rat).Mul(ulp, big.NewRat(64, 1))) > 0 {
+								q, _ := new(big.Rat).Quo(d, ulp).Float64()
+								c.Fail(key, fmt.Sprintf("%.1f units in the last place away (tolerance 64): got %s", q, got.Text('g', 30)))
+							}
+						}
+						if msg := xo.CheckBuilt(x); msg != "" {
+							c.Fail("Float operand x="+xo.String(), "x modified: "+msg)
+						}
+					}
+				}
+				if u < 4 {
+					sp := mkSpecial([]int8{fZero, fInf}[u%2], u >= 2, 9, ToZero)
+					x := sp.Build()
+					for _, z := range []*big.Float{nil, new(big.Float).SetPrec(30).SetInt64(5)} {
+						if c.Skip() {
+							continue
+						}
+						var got *big.Float
+						pv, _ := protect(func() { got = x.Float(z) })
+						ok := pv == nil && got != nil && got.Signbit() == sp.Neg && ((sp.Form == fZero && got.Sign() == 0 && !got.IsInf()) || (sp.Form == fInf && got.IsInf()))
+						if !ok {
+							c.Fail(fmt.Sprintf("Float x=%s", sp), fmt.Sprintf("panic=%v got=%v", pv, got))
+						}
+					}
+				}
+			},
+		})
+	}
 	// H6: long mantissas (the decimal->binary conversion of many-word values)
 	{
 		var lens []int
@@ -639,7 +737,7 @@ func init() {
 		Assumptions: []string{
 			"oracle: exact rational arithmetic (math/big); big.Rat.Float64/Float32 as the definition of 'nearest'",
 			"tolerance for SetFloat is 64 units in the last place ('a few dozen', my reading of the property)",
-			"Acc() after SetFloat64/SetFloat is not judged (not stated); Float (to *big.Float) is not claimed beyond not panicking (C04)",
+			"Acc() after SetFloat64/SetFloat is not judged (not stated); Float (to *big.Float) is held to the same 64-unit tolerance, its Acc() is not judged",
 		},
 		Layers: floatLayers,
 	})
